@@ -3,6 +3,7 @@
 package mc
 
 import (
+	"bytes"
 	"crypto/sha256"
 	"encoding/hex"
 	"encoding/json"
@@ -449,8 +450,16 @@ func RunReplay(path string) int {
 
 func replayInContext(ck *Check, want *Violation) (found *Violation) {
 	c := &Ctx{ID: ck.ID, Tier: want.Tier, Seed: envInt("VERIF_SEED", 0), Shard: want.Shard, NShards: want.NShards, Start: time.Now()}
+	compact := func(raw json.RawMessage) string {
+		var b bytes.Buffer
+		if json.Compact(&b, raw) != nil {
+			return string(raw)
+		}
+		return b.String()
+	}
+	wantCase := compact(want.Case)
 	stopAt = func(v *Violation) bool {
-		return v.Property == want.Property && v.Kind == want.Kind && string(v.Case) == string(want.Case)
+		return v.Property == want.Property && v.Kind == want.Kind && compact(v.Case) == wantCase
 	}
 	defer func() {
 		stopAt = nil
